@@ -241,3 +241,31 @@ func HarnessC07Reread() {
 	verifAssert(s.tmplf == "tmpl.file" && s.defTmpl == parsedDefaultTemplate, "C07.server-keeps-no-template-state")
 	verifReach("C07.reread.end")
 }
+
+// HarnessC07AfterFailure: a request whose (arbitrary) template fails, possibly after producing
+// partial output, is followed by a request with a good template: the second script must be
+// exactly its own rendering - nothing of the failed request may leak into it.
+func HarnessC07AfterFailure() {
+	och := make(chan opshell.CLine, 8)
+	s := mkC07Server(och, "FP")
+	s.tmplf = "tmpl.file"
+	r := &http.Request{RemoteAddr: "c:1", Form: url.Values{"c2": []string{"h"}}, Header: http.Header{}, URL: &url.URL{Path: "/c"}, TLS: &tls.ConnectionState{}}
+	tmplReadFails, tmplStatFails = false, false
+	tmplData = nondetBytes(2, 0) // arbitrary template text
+	w1 := &nullRW{h: http.Header{}}
+	s.scriptHandler(w1, r)
+	firstFailed := len(w1.status) > 0
+	tmplData = []byte("A{{.ID}}!")
+	w2 := &nullRW{h: http.Header{}}
+	s.scriptHandler(w2, r)
+	id2 := strconv.FormatUint(lastRand, 36)
+	want := "A" + id2 + "!"
+	if verifCanary() {
+		want = "x" + want
+	}
+	verifAssert(len(w2.status) == 0 && string(w2.body) == want, "C07.script-is-only-its-own-rendering")
+	if firstFailed {
+		verifReach("C07.afterfailure.first-failed")
+	}
+	verifReach("C07.afterfailure.end")
+}
